@@ -113,6 +113,17 @@ func concUserPipeline(in cuRecord, yield func()) string {
 	if err := it.Fold(&in); err != nil {
 		return "err:fold:" + err.Error()
 	}
+	// unknown members of every shape between the known ones (skipped by the ignore states,
+	// which are package-level singletons shared by all Unfolders)
+	if buf.Len() > 2 && buf.Bytes()[0] == '{' {
+		doc := buf.Bytes()
+		extra := []byte(`"skip1":[[1,2],[3,[4,[5]]],[]],"skip2":{"a":[{"b":[[]]}],"c":{}},"skip3":[[["x"]],"y",{"z":[1]}],`)
+		nd := append([]byte{'{'}, extra...)
+		nd = append(nd, doc[1:len(doc)-1]...)
+		nd = append(nd, []byte(`,"skip4":[[[[1]]],[[2]]],"skip5":"s"}`)...)
+		buf.Reset()
+		buf.Write(nd)
+	}
 	var out cuRecord
 	u, err := gotype.NewUnfolder(&out, concUnfoldOpts)
 	if err != nil {
@@ -123,7 +134,7 @@ func concUserPipeline(in cuRecord, yield func()) string {
 	// cut after every ':' so that a value's unfolder is initialised in one Write and fed in the next
 	start := 0
 	for i := 0; i <= len(doc); i++ {
-		if i == len(doc) || doc[i] == ':' {
+		if i == len(doc) || doc[i] == ':' || doc[i] == '[' || doc[i] == ',' {
 			end := i
 			if i < len(doc) {
 				end = i + 1
